@@ -157,7 +157,10 @@ impl<'a> Visitor for DecVisitor<'a> {
 
         // both placements: the end of the slice against an inaccessible page, and the start right after one
         for place in [Place::End, Place::Start] {
-            let pl = eng.arena.place(bs.len(), addr, 16, place);
+            // (an aligned slice at the end is placed on the type's own alignment, not on 16: for an alignment of 1 its last byte is
+            // the last accessible byte, so reading even one byte past a slice of any length faults)
+            let modulus = if place == Place::End && addr == 0 { T::ALIGN.max(1) } else { 16 };
+            let pl = eng.arena.place(bs.len(), addr, modulus, place);
             pl.slice().copy_from_slice(&bs);
             let tag = if place == Place::End { "end" } else { "start" };
 
